@@ -31,5 +31,8 @@ func propC10(c *Ctx, r *Report) {
 	r.NotDecided = append(r.NotDecided,
 		"index-out-of-range and nil dereference in general, stack depth of recursive descent, termination, time and memory bounds (allocation sizes driven by array lengths in the source)")
 	c.runPanicfree(r, nil, nil, abortExceptions)
+	r.Clauses = append(r.Clauses, "parser loops (E9): every loop of the lexer/parser that keeps consuming tokens until some token kind is seen (or has no condition) also tests for the end of input, or repeats only after a specific token was matched - otherwise a truncated source makes the parser spin forever")
+	c.runParserLoops(r, "abort.parser-loop")
+	r.floor("parser.open-loops", 10)
 	r.floor("abort.functions", 3000)
 }
